@@ -206,4 +206,4 @@ func (h *H) Symbolic() bool { return false }
 
 // Thorough reports the tier (bounds are chosen by the harness from it).
 func (h *H) Thorough() bool { return os.Getenv("VERIF_TIER") == "thorough" }
-type nativeEnv struct{}
+
